@@ -354,8 +354,8 @@ func (r *FnResult) impliedOnNil(v ssa.Value, s *State, d int) {
 			}
 			pred := x.Block().Preds[i]
 			es := r.edgeState(pred, x.Block())
-			if es.top {
-				continue
+			if es.top || nonNilIn(e, es, 0) {
+				continue // unreachable, or infeasible under v == nil
 			}
 			// Only facts that cannot be killed later are carried forward.
 			carried := emptyState()
@@ -563,7 +563,10 @@ type RetState struct {
 }
 
 // SuccessReturns enumerates the states at returns whose error result may be
-// nil. For functions without an error result every return counts.
+// nil. For functions without an error result every return counts. A return
+// block with several predecessors is evaluated once per incoming edge (one
+// level of path sensitivity), so that `if err != nil || x == nil { return err }`
+// keeps the two reasons apart.
 func (r *FnResult) SuccessReturns() []RetState {
 	var out []RetState
 	fn := r.Fn
@@ -576,77 +579,71 @@ func (r *FnResult) SuccessReturns() []RetState {
 		if !ok || b == fn.Recover {
 			continue
 		}
-		var s State
-		r.transfer(b, r.in[b], func(in ssa.Instruction, st State) {
-			if in == ssa.Instruction(ret) {
-				s = st.clone()
+		type entry struct {
+			in   State
+			edge int
+			pos  token.Pos
+		}
+		var entries []entry
+		if len(b.Preds) > 1 {
+			for i, p := range b.Preds {
+				pos := ret.Pos()
+				if len(p.Instrs) > 0 {
+					if pp := p.Instrs[len(p.Instrs)-1].Pos(); pp.IsValid() {
+						pos = pp
+					}
+				}
+				entries = append(entries, entry{r.edgeState(p, b), i, pos})
 			}
-		})
-		if s.top {
-			continue // unreachable
+		} else {
+			entries = append(entries, entry{r.in[b], -1, ret.Pos()})
 		}
-		if !hasErr {
-			out = append(out, RetState{Ret: ret, Edge: -1, State: s, Pos: ret.Pos()})
-			continue
+		for _, en := range entries {
+			if en.in.top {
+				continue
+			}
+			var s State
+			r.transfer(b, en.in, func(in ssa.Instruction, st State) {
+				if in == ssa.Instruction(ret) {
+					s = st.clone()
+				}
+			})
+			if s.top {
+				continue
+			}
+			if !hasErr {
+				out = append(out, RetState{Ret: ret, Edge: en.edge, State: s, Pos: en.pos})
+				continue
+			}
+			e := ret.Results[len(ret.Results)-1]
+			if phi, ok := e.(*ssa.Phi); ok && phi.Block() == b && en.edge >= 0 {
+				e = phi.Edges[en.edge]
+			}
+			if st, ok := r.succState(e, s, 0); ok {
+				out = append(out, RetState{Ret: ret, Edge: en.edge, State: st, Pos: en.pos})
+			}
 		}
-		e := ret.Results[len(ret.Results)-1]
-		out = append(out, r.succStates(ret, e, s)...)
 	}
 	return out
 }
 
-func (r *FnResult) succStates(ret *ssa.Return, e ssa.Value, s State) []RetState {
-	b := ret.Block()
+// succState decides whether returning error value e in state s may be a
+// success, and if so the facts that hold then.
+func (r *FnResult) succState(e ssa.Value, s State, d int) (State, bool) {
 	if isNilConst(e) {
-		return []RetState{{Ret: ret, Edge: -1, State: s, Pos: ret.Pos()}}
+		return s, true
 	}
 	if nonNilIn(e, s, 0) {
-		return nil
+		return s, false
 	}
-	if u, ok := e.(*ssa.UnOp); ok && u.Op == token.MUL {
+	if u, ok := e.(*ssa.UnOp); ok && u.Op == token.MUL && d < 3 {
 		if st := precedingStore(u); st != nil {
-			return r.succStates(ret, st.Val, s)
+			return r.succState(st.Val, s, d+1)
 		}
-	}
-	if phi, ok := e.(*ssa.Phi); ok && phi.Block() == b {
-		// facts generated inside the block after the phi
-		inB := r.in[b]
-		var out []RetState
-		for i, v := range phi.Edges {
-			if definitelyNonNilErr(v) {
-				continue
-			}
-			pred := b.Preds[i]
-			es := r.edgeState(pred, b)
-			if es.top {
-				continue
-			}
-			if es.has("nn:" + v.Name()) {
-				continue
-			}
-			if !s.top && !inB.top {
-				for k := range s.m {
-					if !inB.m[k] {
-						es.add(k)
-					}
-				}
-			}
-			if !isNilConst(v) {
-				r.impliedOnNil(v, &es, 0)
-			}
-			pos := ret.Pos()
-			if len(pred.Instrs) > 0 {
-				if p := pred.Instrs[len(pred.Instrs)-1].Pos(); p.IsValid() {
-					pos = p
-				}
-			}
-			out = append(out, RetState{Ret: ret, Edge: i, State: es, Pos: pos})
-		}
-		return out
 	}
 	st := s.clone()
 	r.impliedOnNil(e, &st, 0)
-	return []RetState{{Ret: ret, Edge: -1, State: st, Pos: ret.Pos()}}
+	return st, true
 }
 
 // SuccessFacts is the intersection of the states at all successful returns
